@@ -61,6 +61,15 @@ class SymSet:
         i = NAMES.index(x)
         return bool(SymBool(z3.Extract(i, i, self.bv) == 1))
 
+    def __bool__(self):
+        # truthiness of a frozenset: non-empty (forks on the bit-vector)
+        return bool(SymBool(self.bv != 0))
+
+    def __len__(self):
+        from vk.engine import SymInt
+        pc = z3.Sum([z3.If(z3.Extract(i, i, self.bv) == 1, 1, 0) for i in range(self.n)])
+        return int(SymInt(pc))
+
     def __iter__(self):
         return iter(['<symbolic set>'])
 
